@@ -467,3 +467,30 @@ m('M43e', 'C18', 'C18.conv-siblings', 'future_conv.h',
         } catch (...) {
             return p(std::current_exception());
         }""", 'delegating shape also resolves')
+m('M37', 'C15', 'C15.value-before-notify', 'signal.h',
+  """            _state->_cur_val = &val;
+            return _state->notify_awaiters();""", """            auto __r = _state->notify_awaiters();
+            _state->_cur_val = &val;
+            return __r;""", 'notify before storing the value')
+m('M38', 'C15', 'C15.self-owning', 'signal.h',
+  """                if (!st) {
+                    delete this;
+                    return;
+                }""", """                if (!st) {
+                    return;
+                }""", 'dead-state path leaks the awaiter')
+m('M38b', 'C15', 'C15.alive-or-fail', 'signal.h',
+  """                this->subscribe(s->_chain);
+                return true;
+            }  else {
+                return false;
+            }""", """                this->subscribe(s->_chain);
+                return true;
+            }  else {
+                return true;
+            }""", 'disconnected emitter suspends forever')
+m('M38c', 'C15', 'C15.value-before-notify', 'signal.h',
+  """            _cur_val = nullptr;
+            notify_awaiters();""", """            _cur_val = nullptr;""", 'disconnect does not wake')
+m('M38d', 'C15', 'C15.alive-or-fail', 'signal.h',
+  "            throw await_canceled_exception();", "            throw value_not_ready_exception();", 'wrong exception on disconnect')
